@@ -174,6 +174,8 @@ def statements(thorough=False):
         # a CTE whose name is the bare name of a real table of another schema-qualified relation in the statement
         "cte_named_like_table": [Rel("cte", "s1.ta", "tb"), Rel("table", "s1.tc", "z")],
         "alias_case": [Rel("table", "s1.ta", "Xa"), Rel("table", "s1.tb", "yB")],
+        # an alias spelled like the bare name of ANOTHER table of the same scope (which itself is aliased): the alias shadows it
+        "alias_like_other_table": [Rel("table", "s1.ta", "tb"), Rel("table", "s1.tb", "y")],
         "one_table_fullqual": [_full(Rel("table", "s1.ta"))],
         "join2_fullqual": [_full(Rel("table", "s1.ta")), _full(Rel("table", "s1.tb"))],
     }
@@ -203,4 +205,16 @@ def unions():
         out.append((f"union/{name}", union_sql(group)))
     e2 = Stmt([Rel("table", "s1.ta", "x")], [("col", [(0, "a2")], True), ("col", [(0, "a1")], True)], explicit=["e1", "e2"])
     out.append(("union/explicit", union_sql([e2, b])))
+    return out
+
+
+def wildcards():
+    """SELECT * over each kind of relation: one wildcard per relation in scope; a derived table / CTE expands to its own column
+    list (known from the statement itself), a base table without metadata stays `*`"""
+    out = []
+    out.append(("wildcard/derived", ("insert into s1.tgt select * from (select a1, a2 from s1.ta) d", {("s1.ta.a1", "s1.tgt.a1"), ("s1.ta.a2", "s1.tgt.a2")})))
+    out.append(("wildcard/table", ("insert into s1.tgt select * from s1.ta x", {("s1.ta.*", "s1.tgt.*")})))
+    out.append(("wildcard/table_join_derived", ("insert into s1.tgt select * from s1.ta x join (select b1 from s1.tb) d on x.id = d.b1", {("s1.ta.*", "s1.tgt.*"), ("s1.tb.b1", "s1.tgt.b1")})))
+    out.append(("wildcard/cte_join_table", ("insert into s1.tgt with c as (select c1 from s1.tc) select * from c join s1.ta x on x.id = c.c1", {("s1.ta.*", "s1.tgt.*"), ("s1.tc.c1", "s1.tgt.c1")})))
+    out.append(("wildcard/two_tables", ("insert into s1.tgt select * from s1.ta x join s1.tb y on x.id = y.id", {("s1.ta.*", "s1.tgt.*"), ("s1.tb.*", "s1.tgt.*")})))
     return out
